@@ -82,6 +82,22 @@ fn seqs<C: CI>(ctx: &mut Ctx) {
     let pw = per_word(a.bits);
     let noff = n_offsets(a.bits);
     let bits = a.bits as usize;
+    ctx.group(&format!("{name}/exact-fit"), |ctx| {
+        // serialised values whose allocation has no spare words (whole-word lengths; copies of tail windows)
+        let cases = exact_fit_cases_for(ctx, a.bits);
+        for (n, pad) in cases {
+            if ctx.over() {
+                break;
+            }
+            let _fit = exact_fit_mode();
+            let m = cover_codes(&mut ctx.rng, a, n);
+            let p = Padded::<C>::new(&mut ctx.rng, pad, &m, 0);
+            let all = codes_of::<C>(&p.parent);
+            roundtrip_seq::<C>(ctx, &p.parent, &all, "exact-capacity");
+            roundtrip_seq::<C>(ctx, &p.slice().to_owned(), &m, "copy-of-allocation-tail");
+            cell!(ctx, "{name}/exact-fit/{}/pad{}", len_class(a.bits, n), if pad == 0 { "0" } else if (pad * bits) % 64 == 0 { "word" } else { "unaligned" });
+        }
+    });
     ctx.group(&format!("{name}/sequences"), |ctx| {
         let mut lens = boundary_lengths(a.bits, 3);
         if ctx.lite {
@@ -171,7 +187,7 @@ where
 {
     let a = C::alpha();
     let name = C::NAME;
-    if ctx.lite && !ctx.mine(K) {
+    if ctx.lite && !ctx.mine_group(K) {
         return;
     }
     let kb = K * a.bits as usize;
@@ -215,6 +231,22 @@ where
 
 fn main() {
     run_main("C18", |ctx| {
+        ctx.first_use_race(3, |t| {
+            let d: Seq<Dna> = ["ACGTTGCAACGTACGTACGTACGTACGTACGTTTGAC", "ACGT", ""][t % 3].try_into().unwrap();
+            let i: Seq<Iupac> = "ACGTRYSWKMBDHVN-ACGT".try_into().unwrap();
+            let k: Kmer<Dna, 4> = Kmer::from(27usize + t);
+            let bd = bincode::serialize(&d).unwrap();
+            let bi = bincode::serialize(&i).unwrap();
+            let bk = bincode::serialize(&k).unwrap();
+            let jd = serde_json::to_string(&d).unwrap();
+            (
+                bincode::deserialize::<Seq<Dna>>(&bd).map(|s| s.to_string()).ok(),
+                bincode::deserialize::<Seq<Iupac>>(&bi).map(|s| s.to_string()).ok(),
+                bincode::deserialize::<Kmer<Dna, 4>>(&bk).map(|s| s.to_string()).ok(),
+                serde_json::from_str::<Seq<Dna>>(&jd).map(|s| s.to_string()).ok(),
+                bd, bi, bk,
+            )
+        });
         for_each_codec!(seqs, ctx);
         if ctx.lite {
             for_each_k_small!(kmer_case, usize, ctx);
